@@ -410,6 +410,13 @@ fn date32_to_naive(days: i32) -> Option<chrono::NaiveDate> {
     chrono::NaiveDate::from_num_days_from_ce_opt(days.checked_add(719163)?)
 }
 
+/// Month count of DATE_ADD as chrono takes it: (go back?, |n| months); `None` when |n| does not
+/// fit (chrono adds at most u32::MAX months).
+fn month_offset(n: i64) -> Option<(bool, chrono::Months)> {
+    let magnitude = u32::try_from(n.unsigned_abs()).ok()?;
+    Some((n < 0, chrono::Months::new(magnitude)))
+}
+
 fn find_column_index(batch: &RecordBatch, col: &Column) -> Result<usize> {
     let schema = batch.schema();
 
@@ -2214,21 +2221,26 @@ fn evaluate_scalar_func(
                         let value = get_int_value(value_arr, i)? as i64;
 
                         let new_date = match unit.as_str() {
-                            "day" | "days" => date.checked_add_signed(Duration::days(value))?,
-                            "week" | "weeks" => date.checked_add_signed(Duration::weeks(value))?,
+                            "day" | "days" => {
+                                date.checked_add_signed(Duration::try_days(value)?)?
+                            }
+                            "week" | "weeks" => {
+                                date.checked_add_signed(Duration::try_weeks(value)?)?
+                            }
                             "month" | "months" => {
-                                if value >= 0 {
-                                    date.checked_add_months(Months::new(value as u32))?
+                                let (back, months) = month_offset(value)?;
+                                if back {
+                                    date.checked_sub_months(months)?
                                 } else {
-                                    date.checked_sub_months(Months::new((-value) as u32))?
+                                    date.checked_add_months(months)?
                                 }
                             }
                             "year" | "years" => {
-                                let months = value * 12;
-                                if months >= 0 {
-                                    date.checked_add_months(Months::new(months as u32))?
+                                let (back, months) = month_offset(value.checked_mul(12)?)?;
+                                if back {
+                                    date.checked_sub_months(months)?
                                 } else {
-                                    date.checked_sub_months(Months::new((-months) as u32))?
+                                    date.checked_add_months(months)?
                                 }
                             }
                             _ => return None,
@@ -2260,27 +2272,32 @@ fn evaluate_scalar_func(
 
                         let new_dt = match unit.as_str() {
                             "second" | "seconds" => {
-                                dt.checked_add_signed(Duration::seconds(value))?
+                                dt.checked_add_signed(Duration::try_seconds(value)?)?
                             }
                             "minute" | "minutes" => {
-                                dt.checked_add_signed(Duration::minutes(value))?
+                                dt.checked_add_signed(Duration::try_minutes(value)?)?
                             }
-                            "hour" | "hours" => dt.checked_add_signed(Duration::hours(value))?,
-                            "day" | "days" => dt.checked_add_signed(Duration::days(value))?,
-                            "week" | "weeks" => dt.checked_add_signed(Duration::weeks(value))?,
+                            "hour" | "hours" => {
+                                dt.checked_add_signed(Duration::try_hours(value)?)?
+                            }
+                            "day" | "days" => dt.checked_add_signed(Duration::try_days(value)?)?,
+                            "week" | "weeks" => {
+                                dt.checked_add_signed(Duration::try_weeks(value)?)?
+                            }
                             "month" | "months" => {
-                                if value >= 0 {
-                                    dt.checked_add_months(Months::new(value as u32))?
+                                let (back, months) = month_offset(value)?;
+                                if back {
+                                    dt.checked_sub_months(months)?
                                 } else {
-                                    dt.checked_sub_months(Months::new((-value) as u32))?
+                                    dt.checked_add_months(months)?
                                 }
                             }
                             "year" | "years" => {
-                                let months = value * 12;
-                                if months >= 0 {
-                                    dt.checked_add_months(Months::new(months as u32))?
+                                let (back, months) = month_offset(value.checked_mul(12)?)?;
+                                if back {
+                                    dt.checked_sub_months(months)?
                                 } else {
-                                    dt.checked_sub_months(Months::new((-months) as u32))?
+                                    dt.checked_add_months(months)?
                                 }
                             }
                             _ => return None,
@@ -2474,7 +2491,8 @@ fn evaluate_scalar_func(
                                     .with_minute(0)?
                                     .with_second(0)?
                                     .with_nanosecond(0)?;
-                                day_start - chrono::Duration::days(weekday as i64)
+                                day_start
+                                    .checked_sub_signed(chrono::Duration::days(weekday as i64))?
                             }
                             "month" | "months" => Utc
                                 .with_ymd_and_hms(dt.year(), dt.month(), 1, 0, 0, 0)
